@@ -753,7 +753,17 @@ class Enumerator(object):
                             self.add_pat_cond(ep, q.value, npred, nnames)
                             nxt.extend(self.run(s['els'], ep))
                             pred, names = canon.pattern_pred(s['pat'], ty)
-                            self.add_pat_cond(q, q.value, pred, names)
+                            nst = canon.nested(s['pat'])
+                            if nst is not None and names is None:
+                                # `let V(P) = x else ..`: the variant test, then the test of its field (as a nested match would)
+                                en, vn, sub = nst
+                                outer = canon.render(en, {vn}) if canon.variants_of(en) else '%s::%s(_)' % (en, vn)
+                                self.add_pat_cond(q, q.value, outer, {vn})
+                                sen = canon.variant_of_pat(sub)
+                                spred, snames = canon.pattern_pred(sub, sen[0] if sen else None)
+                                self.add_pat_cond(q, ('field', q.value, '%s.0' % vn), spred, snames)
+                            else:
+                                self.add_pat_cond(q, q.value, pred, names)
                         if not q.done:
                             val = q.value
                             pat = s['pat']
